@@ -3,8 +3,10 @@
 Transcription of
 * `lena/flow/selectors.py`: `Selector.__init__` (dispatch on the type of the specification),
   `Selector.__call__` (error absorption), `And/Or/Not.__call__`, `SelectContext.__call__`;
-* `lena/flow/filter.py`: `Filter.__init__`, `Filter.run`, `Filter.fill_into`; two `Filter`s in a
-  `Sequence` (`filterSeqRun`: the lazy value-by-value order of nested generators);
+* `lena/flow/filter.py`: `Filter.__init__`, `Filter.run`, `Filter.fill_into` (also with the filled element made
+  explicit: `fillIntoEl`, `fillIntoAll`); two `Filter`s in a `Sequence` (`filterSeqRun`: the lazy value-by-value
+  order of nested generators); a `StopIteration` raised inside a generator expression / generator function reaches
+  the caller as `RuntimeError` (PEP 479: `pep479`, in `callAll`, `callAny`, `filterRun`, `filterSeqRun`, `runIfRun`);
 * `lena/flow/elements.py`: `RunIf.__init__`, `RunIf.run`;
 * `lena/context/functions.py`: `contains`, `get_recursively` without default — string, list and
   dictionary keys, with its `LenaValueError` / `LenaTypeError` for malformed keys;
